@@ -128,7 +128,7 @@ SOLV = {"PA": MOLTYPES["PA"], "SOL": [("SOL", ["OW", "HW1"])], "W": [("W", ["W"]
 
 @condition("C04.coordfile",
            anchors=["polyply.src.topology:Topology.add_positions_from_file", "polyply.src.topology:_coord_parser"],
-           rejects=(), selector_only=True, must_cover=["gro"],
+           rejects=(), selector_only=True, must_cover=["gro", "atoms outside the box"],
            outside=[".pdb input", "coordinates with more than three decimals"],
            bounds={"quick": dict(layouts=[[("PA", 1), ("SOL", 2)], [("SOL", 1), ("PA", 1), ("W", 1)], [("ION", 1), ("SOL", 1), ("W", 2)]]),
                    "thorough": dict(layouts=[[("PA", 1), ("SOL", 2)], [("SOL", 1), ("PA", 1), ("W", 1)], [("ION", 1), ("SOL", 1), ("W", 2)],
@@ -141,6 +141,12 @@ def coordfile(sx, B):
     top = topology_from_text(top_text(SOLV, layout, atomtypes=("A", "B", "SOL", "W", "NA")))
     natoms = sum(len(m.molecule.nodes) for m in top.molecules)
     rows = np.array([np.round(sentinel(k), 3) for k in range(natoms)])
+    if sx.sel("placement", ["inside the box", "whole molecules sticking out of the box"]) != "inside the box":
+        # an unwrapped structure: some atoms lie beyond a box face or at negative coordinates; they are kept where they are
+        rows[0][0] = -0.08
+        rows[natoms - 1][1] = 8.0 + 0.25
+        rows[natoms // 2][2] = 7.0 + 6.125
+        sx.cover("atoms outside the box")
     d = tempfile.mkdtemp(prefix="pverif_", dir=os.environ.get("TMPDIR"))
     try:
         path = os.path.join(d, "conf.gro")
